@@ -11,7 +11,7 @@ import numpy as np
 
 from . import ref as R
 
-FAMILIES = ["quad", "expsum", "lse", "barrier", "quad-scalar"]
+FAMILIES = ["quad", "expsum", "lse", "barrier", "quad-scalar", "weighted-vexpr", "sym-matrix"]
 
 
 def q(rng, lo=-2, hi=2, nz=False, den=4):
@@ -32,7 +32,10 @@ def draw_convex(rng, family=None, n=None, constrained=True, bounds=True, sense=N
     n = n or rng.randint(2, 4)
     decls = []
     extra = []
-    if scalars and family != "quad-scalar" and rng.random() < 0.6:
+    if family == "sym-matrix":
+        n = min(n, 3)
+        bounds = False  # one (lb, ub) pair per container: no per-entry active bounds to manufacture
+    if scalars and family not in ("quad-scalar", "weighted-vexpr", "sym-matrix") and rng.random() < 0.6:
         extra = [rng.choice(["z", "a", "x10"])]
     # creation order != natural order
     if extra and rng.random() < 0.5:
@@ -41,6 +44,8 @@ def draw_convex(rng, family=None, n=None, constrained=True, bounds=True, sense=N
         svars = ["x10", "x2", "b", "a"][:n]
         for nm in svars:
             decls.append({"k": "var", "name": nm})
+    elif family == "sym-matrix":
+        decls.append({"k": "mat", "name": "S", "r": n, "c": n, "sym": True})
     else:
         decls.append({"k": "vec", "name": "x", "n": n})
     if extra and not any(d["name"] == extra[0] for d in decls):
@@ -51,7 +56,7 @@ def draw_convex(rng, family=None, n=None, constrained=True, bounds=True, sense=N
     idx = {nm: i for i, nm in enumerate(names)}
     xs = {nm: q(rng, -1, 2) for nm in names}
     x = ["vec", "x"]
-    vnames = D.vec_names("x") if family != "quad-scalar" else []
+    vnames = D.vec_names("x") if family not in ("quad-scalar", "sym-matrix") else []
 
     # ---- base objective f0 (strongly convex) --------------------------------
     terms = []
@@ -100,6 +105,30 @@ def draw_convex(rng, family=None, n=None, constrained=True, bounds=True, sense=N
     elif family == "lse":
         terms.append(["fn", "log", ["sum", ["vfn", "exp", x]]])
         terms.append(["bin", "*", ["raw", 0.5, "float"], rng.choice([["dot", x, x], ["sum", ["vpow", x, 2]]])])
+    elif family == "weighted-vexpr":
+        # positive weights applied to a convex function of an affine image, M invertible (strictly convex); the vector node is the
+        # whole base objective:  w @ (M x - b)**2   or   w @ exp(M x - b)
+        while True:
+            Mw = np.array([[q(rng, -1, 1, den=2) for _ in range(n)] for _ in range(n)]) + np.eye(n) * 1.5
+            if abs(np.linalg.det(Mw)) > 0.5:
+                break
+        wts = [0.5 + abs(q(rng, 0, 2)) for _ in range(n)]
+        bw = [q(rng, -1, 1) for _ in range(n)]
+        inner = ["vbin", "-", ["mv", Mw.tolist(), x], ["arr", bw]]
+        kindw = rng.choice(["square", "exp", "square-dot"])
+        if kindw == "square":
+            terms.append(["matmul", ["arr", wts], ["vpow", inner, 2]])
+        elif kindw == "exp":
+            terms.append(["matmul", ["arr", wts], ["vfn", "exp", inner]])
+        else:
+            terms.append(["dot", ["vpow", inner, 2], ["velems", [["const", float(w_), "float"] for w_ in wts]]])
+    elif family == "sym-matrix":
+        # symmetric matrix variable: every off-diagonal variable sits at two positions of the matrix
+        Sm = ["mat", "S"]
+        Cm = [[q(rng, -1, 2) for _ in range(n)] for _ in range(n)]
+        Cm = [[Cm[min(i, j)][max(i, j)] for j in range(n)] for i in range(n)]
+        terms.append(rng.choice([["msum", ["mbin", "**", ["mbin", "-", Sm, ["arr2", Cm]], ["raw", 2, "int"]]],
+                                 ["bin", "**", ["fro", ["mbin", "-", Sm, ["arr2", Cm]]], ["raw", 2, "int"]]]))
     elif family == "barrier":
         u = [xs[nm] + 1.0 + abs(q(rng, 0, 2)) for nm in vnames]
         terms.append(["neg", ["sum", ["vfn", "log", ["vrbin", "-", ["arr", u], x]]]])
@@ -127,7 +156,7 @@ def draw_convex(rng, family=None, n=None, constrained=True, bounds=True, sense=N
             kind = rng.choice(["lin-ineq", "lin-ineq", "lin-eq", "quad-ineq"])
             if kind == "lin-eq" and any(c["type"] == "eq" for c in cons):
                 kind = "lin-ineq"
-            if simple_constraints_only:
+            if simple_constraints_only or (family == "sym-matrix" and ci == 0):
                 kind = "lin-ineq"
             if kind.startswith("lin"):
                 sub = rng.sample(names, rng.randint(1, min(3, N)))
@@ -142,6 +171,29 @@ def draw_convex(rng, family=None, n=None, constrained=True, bounds=True, sense=N
                     t = ["bin", "*", ["raw", cf, "float"], _vnode(D, nm)]
                     lin = t if lin is None else ["bin", "+", lin, t]
                 at = sum(cf * xs[nm] for nm, cf in coef.items())
+                if family == "sym-matrix" and ci == 0:
+                    # S.sum() (<= | ==) c, active: the Jacobian row counts every off-diagonal variable twice
+                    mult = {}
+                    for row_ in D.mat_names("S"):
+                        for nm in row_:
+                            mult[nm] = mult.get(nm, 0.0) + 1.0
+                    coef, sub = mult, list(mult)
+                    at = sum(cf * xs[nm] for nm, cf in coef.items())
+                    wrap = rng.choice(["bare", "scaled", "shifted"])
+                    lin = ["msum", ["mat", "S"]]
+                    linw, atw = lin, at
+                    if wrap == "scaled":
+                        linw, atw = ["bin", "*", ["raw", 2.0, "float"], lin], 2.0 * at
+                    elif wrap == "shifted":
+                        linw, atw = ["bin", "-", lin, ["raw", 1.0, "float"]], at - 1.0
+                    if rng.random() < 0.5 and not any(c["type"] == "eq" for c in cons):
+                        cons.append({"rel": ["rel", "==", linw, ["raw", atw, "float"], "direct"], "g": ["bin", "-", lin, ["raw", at, "float"]],
+                                     "type": "eq", "active": True, "lam": q(rng, -2, 2), "lincoef": dict(coef)})
+                    else:
+                        cons.append({"rel": ["rel", "<=", linw, ["raw", atw, "float"], "direct"], "g": ["bin", "-", lin, ["raw", at, "float"]],
+                                     "type": "ineq", "active": True, "lam": 0.25 + abs(q(rng, 0, 2)), "vars": tuple(sub), "lincoef": dict(coef)})
+                    n_active += 1
+                    continue
                 if kind == "lin-eq":
                     rows_ = [[c_["lincoef"].get(nm, 0.0) for nm in names] for c_ in cons if c_.get("active") and "lincoef" in c_]
                     if rows_ and np.linalg.matrix_rank(np.array(rows_ + [[coef.get(nm, 0.0) for nm in names]])) <= np.linalg.matrix_rank(np.array(rows_)):
@@ -334,6 +386,9 @@ def _vnode(D, nm):
     if "[" not in nm:
         return ["var", nm]
     base, i = nm[:-1].split("[")
+    if "," in i:
+        r_, c_ = i.split(",")
+        return ["mel", ["mat", base], int(r_), int(c_)]
     return ["el", ["vec", base], int(i)]
 
 
